@@ -915,8 +915,24 @@ def get_code(node: ast.AST | Range, source: str) -> str:
     return source[start_charno:end_charno]
 
 
+def _evaluation_errors_as_value_error(func):
+    """Report anything that goes wrong while evaluating a constant as "no known value"."""
+
+    @functools.wraps(func)
+    def wrapper(node: ast.AST):
+        try:
+            return func(node)
+        except ValueError:
+            raise
+        except Exception as error:
+            raise ValueError(f"Cannot find a deterministic value: {error!r}") from error
+
+    return wrapper
+
+
+@_evaluation_errors_as_value_error
 def literal_value(node: ast.AST) -> bool:
-    if has_side_effect(node, safe_callable_whitelist=constants.BUILTIN_FUNCTIONS):
+    if has_side_effect(node, safe_callable_whitelist=constants.SAFE_CALLABLES):
         raise ValueError("Cannot find a deterministic value for a node with a side effect")
 
     if match_template(
@@ -966,7 +982,7 @@ def literal_value(node: ast.AST) -> bool:
         return getattr(node_value, node.func.attr)(*args)
 
     if isinstance(node, ast.Call):
-        if isinstance(node.func, ast.Name) and node.func.id in constants.BUILTIN_FUNCTIONS:
+        if isinstance(node.func, ast.Name) and node.func.id in constants.SAFE_CALLABLES:
             args = [literal_value(arg) for arg in node.args]
             return getattr(builtins, node.func.id)(*args)
 
